@@ -28,7 +28,7 @@ def gen_plan(rng, cap, termdelay=2):
         stop = triple(rng) if rng.random() < 0.7 else [[0, 0], [0, 0], [0, 0]]
         sched, has_exit = [], False
         for _ in range(rng.randint(0, 7)):
-            k = rng.choice(["out", "out", "err", "cread", "cclose", "exit", "cclosex", "out"])
+            k = rng.choice(["out", "out", "err", "cread", "cclose", "exit", "cclosex", "out", "eintr"])
             if k == "exit":
                 if has_exit:
                     continue
@@ -38,10 +38,19 @@ def gen_plan(rng, cap, termdelay=2):
                 a = rng.choice([1, 2, cap // 2 or 1, cap - 1, cap, cap + 3])
             elif k == "cclose":
                 a = rng.choice([0, 1, 2])
+            elif k == "eintr":
+                a = 0
+                if rng.random() < 0.5:
+                    continue
             else:
                 a = 1
                 if rng.random() < 0.8:
                     continue  # rare
+            if k == "exit" and rng.random() < 0.25:
+                # the child ends but a descendant keeps its descriptors for a while
+                sched.append([rng.randint(0, 4), "exitg", a])
+                sched.append([rng.randint(0, 6), "ggone", 1])
+                break
             sched.append([rng.randint(0, 4), k, a])
             if k == "exit":
                 break
